@@ -1,6 +1,7 @@
 import Model.Lib.Ops
 import Proofs.Lemmas.Barrel
 import Proofs.Lemmas.Synth
+import Proofs.Lemmas.Signed
 import Mathlib.Tactic.Ring
 /-!
 # C06 — hardware operators compute exact integer results at the documented widths
@@ -132,5 +133,29 @@ theorem barrel_shift_eq (bits : List Bool) (bitIn dir : Bool) (sd : List Bool) (
 example : zeroExtended (3, 5) 8 = (8, 5) := by decide
 example : Barrel.barrelShifter [true, false, true, true] false true [true, false, false]
     = [false, true, false, true] := by decide
+
+/-- **Sign extension** (`sign_extended`, and `match_bitwidth(signed=True)`): for every width `w ≥ 1`,
+    target `n ≥ w` and in-range value, the result is `n` bits wide, in range, and is the same
+    two's-complement integer. -/
+theorem sign_extend_keeps_signed_value (w a n : Nat) (hw : 0 < w) (ha : a < 2 ^ w) (hn : w ≤ n) :
+    (signExtended (w, a) n).1 = n ∧ (signExtended (w, a) n).2 < 2 ^ n ∧
+    toSigned (signExtended (w, a) n) = toSigned (w, a) :=
+  sign_extend_value w a n hw ha hn
+
+/-- **`signed_lt`** for operands of any two widths: sign-match, subtract at one more bit, and
+    `r[-1] ^ ~a[-1] ^ ~b[-1]` is exactly `a <ₛ b` on the two's-complement values. -/
+theorem signed_lt_correct (wa a wb b : Nat) (hwa : 0 < wa) (hwb : 0 < wb) (ha : a < 2 ^ wa) (hb : b < 2 ^ wb) :
+    signedLt (wa, a) (wb, b) = if toSigned (wa, a) < toSigned (wb, b) then 1 else 0 :=
+  signedLt_correct wa a wb b hwa hwb ha hb
+
+/-- **`signed_add`** for operands of any two widths: `max+1` result bits hold exactly the sum of the two
+    two's-complement values (no overflow is possible at that width). -/
+theorem signed_add_exact (wa a wb b : Nat) (hwa : 0 < wa) (hwb : 0 < wb) (ha : a < 2 ^ wa) (hb : b < 2 ^ wb) :
+    (signedAdd (wa, a) (wb, b)).1 = max wa wb + 1 ∧
+    toSigned (signedAdd (wa, a) (wb, b)) = toSigned (wa, a) + toSigned (wb, b) :=
+  signedAdd_exact wa a wb b hwa hwb ha hb
+
+-- -1 (1 bit) is not less than -1 (2 bits); -2 (2 bits) is less than 1 (3 bits)
+example : signedLt (1, 1) (2, 3) = 0 ∧ signedLt (2, 2) (3, 1) = 1 := by decide
 
 end Pyrtl.C06
